@@ -49,8 +49,10 @@ def load_contracts(src):
         import contracts.sequences as _sq
         _sq.register_sequences(src)
         _sq.register_focused(src)
+        _sq.register_sequence_build(src)
         import contracts.alternatives as _al
         _al.register_alternatives(src)
+        import contracts.foldlemmas  # noqa  (lemmas over the Array folds; needs the fold definitions registered above)
     import contracts.classes as cc
     gens = cc.generic_contracts(src)
     from contracts.prims import LOOPS
@@ -509,8 +511,13 @@ def conclude(pid, P, tier, seed, a, t0, src, results, oor, stats, functions, ext
     keys_now = sorted({stable_key(r.name) for r in discharged})
     checker_errors = []
     if a.relock:
-        lock[pid] = {'keys': keys_now, 'count': len(discharged)}
-        json.dump(lock, open(lockp, 'w'), indent=0, sort_keys=True)
+        import fcntl
+        with open(lockp + '.flock', 'w') as guard:       # relocks of different properties may run side by side: re-read under a lock
+            fcntl.flock(guard, fcntl.LOCK_EX)
+            cur = json.load(open(lockp)) if os.path.exists(lockp) else {}
+            cur[pid] = {'keys': keys_now, 'count': len(discharged)}
+            json.dump(cur, open(lockp, 'w'), indent=0, sort_keys=True)
+        os.remove(lockp + '.flock') if os.path.exists(lockp + '.flock') else None
         print('relocked %s: %d obligations, %d stable keys' % (pid, len(discharged), len(keys_now)))
     if not results and not extras.get('tables'):
         checker_errors.append('no obligations generated')
